@@ -529,6 +529,7 @@ def run(ctx):
     run_strids(ctx)
     run_enum(ctx)
     run_floats(ctx)
+    run_binaryish(ctx)
 
 
 def scalar_value(rng):
@@ -845,16 +846,32 @@ def strid_env():
 
     def meta():
         return type('sqlmeta', (), {'idType': str})
+    from sqlobject import SQLRelatedJoin, SQLMultipleJoin
+    from sqlobject.joins import ManyToMany, OneToMany
+    from sqlobject.styles import MixedCaseUnderscoreStyle
+    st = MixedCaseUnderscoreStyle()
+    dt, tt = st.pythonClassToDBTable(dn), st.pythonClassToDBTable(tn)
+    lk = '_'.join(sorted([dt, tt]))
+    # every flavour of join shares ONE link table / ONE foreign key, so that one expectation serves all accessors
     Doc = type(dn, (SQLObject,), {'_connection': conn, 'sqlmeta': meta(), 'title': StringCol(default=None),
-                                  'tags': RelatedJoin(tn), 'notes': MultipleJoin(nn, joinColumn='doc_id')})
+                                  'tags': RelatedJoin(tn), 'notes': MultipleJoin(nn, joinColumn='doc_id'),
+                                  'stags': SQLRelatedJoin(tn, createRelatedTable=False, addRemoveName='Stag'),
+                                  'snotes': SQLMultipleJoin(nn, joinColumn='doc_id'),
+                                  'mtags': ManyToMany(tn, intermediateTable=lk, joinColumn=dt + '_id', otherColumn=tt + '_id',
+                                                      createJoinTable=False),
+                                  'onotes': OneToMany(nn, joinColumn='doc_id')})
     Tag = type(tn, (SQLObject,), {'_connection': conn, 'sqlmeta': meta(), 'name': StringCol(default=None),
-                                  'docs': RelatedJoin(dn)})
+                                  'docs': RelatedJoin(dn),
+                                  'sdocs': SQLRelatedJoin(dn, createRelatedTable=False, addRemoveName='Sdoc'),
+                                  'mdocs': ManyToMany(dn, intermediateTable=lk, joinColumn=tt + '_id', otherColumn=dt + '_id',
+                                                      createJoinTable=False)})
     Note = type(nn, (SQLObject,), {'_connection': conn, 'doc': ForeignKey(dn, default=None), 'body': StringCol(default=None)})
     Item = type(im, (SQLObject,), {'_connection': conn, 'sqlmeta': meta(), 'name': StringCol(default=None)})
     Plain = type(pn, (SQLObject,), {'_connection': conn, 'n': IntCol(default=None)})
     for c in (Doc, Tag, Note, Item, Plain):
         c.createTable()
     join = [j for j in Doc.sqlmeta.joins if j.joinMethodName == 'tags'][0]
+    assert (join.intermediateTable, join.joinColumn, join.otherColumn) == (lk, dt + '_id', tt + '_id')
     _sid.update(conn=conn, log=log, Doc=Doc, Tag=Tag, Note=Note, Item=Item, Plain=Plain, link=join.intermediateTable,
                 lcols=(join.joinColumn, join.otherColumn))
     return _sid
@@ -887,7 +904,8 @@ def skeleton(d, sql, idmap):
     return [(k, idmap.get(v, v)) if k == 'S' else (k, '#') if k == 'W' and v.isdigit() else (k, v) for k, v in ts]   # '#': autoincrement ids
 
 
-STRID_OPS = ('note', 'notes', 'selfk', 'selfkobj', 'selby', 'get', 'selid', 'upd', 'selbyid', 'infk', 'selobj', 'inobj', 'destroy')
+STRID_OPS = ('sqlrelatedjoin-accessor', 'sqlrelatedjoin-accessor-other-side', 'manytomany-accessor', 'sqlmultiplejoin-accessor',
+             'onetomany-accessor', 'note', 'notes', 'selfk', 'selfkobj', 'selby', 'get', 'selid', 'upd', 'selbyid', 'infk', 'selobj', 'inobj', 'destroy')
 
 
 def run_strids(ctx):
@@ -933,7 +951,9 @@ def run_strids(ctx):
         expect = {0: [], 1: []}      # link rows (twin world, real world)
         ops = []
         for _ in range(rng.randint(3, 8)):
-            ops.append((rng.choice(['add', 'add', 'remove', 'tags', 'docs', 'radd', 'rremove']), rng.randrange(nd), rng.randrange(nt)))
+            ops.append((rng.choice(['add', 'add', 'remove', 'tags', 'docs', 'radd', 'rremove', 'sqlrelatedjoin-accessor', 'sqlrelatedjoin-accessor-other-side',
+                                    'manytomany-accessor', 'manytomany-accessor-other-side', 'manytomany-add', 'manytomany-remove',
+                                    'manytomany-add-other-side', 'manytomany-remove-other-side']), rng.randrange(nd), rng.randrange(nt)))
         ops += [(k, rng.randrange(nd), rng.randrange(nt)) for k in STRID_OPS]
         for kind, i, j in ops:
             res = {}
@@ -957,6 +977,38 @@ def run_strids(ctx):
                         getattr(t, 'remove' + Doc.__name__)(d)
                         expect[w] = [x for x in expect[w] if x != (d.id, t.id)]
                         out = None
+                    elif kind == 'sqlrelatedjoin-accessor':
+                        out = sorted(x.id for x in d.stags) == sorted(b for a, b in expect[w] if a == d.id)
+                    elif kind == 'sqlrelatedjoin-accessor-other-side':
+                        out = sorted(x.id for x in t.sdocs) == sorted(a for a, b in expect[w] if b == t.id)
+                    elif kind == 'manytomany-accessor':
+                        out = sorted(x.id for x in d.mtags) == sorted(b for a, b in expect[w] if a == d.id)
+                    elif kind == 'manytomany-accessor-other-side':
+                        out = sorted(x.id for x in t.mdocs) == sorted(a for a, b in expect[w] if b == t.id)
+                    elif kind == 'manytomany-add':
+                        d.mtags.add(t)
+                        expect[w].append((d.id, t.id))
+                        out = None
+                    elif kind == 'manytomany-add-other-side':
+                        t.mdocs.add(d)
+                        expect[w].append((d.id, t.id))
+                        out = None
+                    elif kind == 'manytomany-remove':
+                        d.mtags.remove(t)
+                        expect[w] = [x for x in expect[w] if x != (d.id, t.id)]
+                        out = None
+                    elif kind == 'manytomany-remove-other-side':
+                        t.mdocs.remove(d)
+                        expect[w] = [x for x in expect[w] if x != (d.id, t.id)]
+                        out = None
+                    elif kind == 'sqlmultiplejoin-accessor':
+                        n0 = Note(doc=d, body='s')
+                        got = [n.id for n in d.snotes]
+                        out = n0.id in got and all(n.docID == d.id for n in d.snotes) and d.snotes.count() == len(got)
+                    elif kind == 'onetomany-accessor':
+                        n0 = Note(doc=d, body='1')
+                        got = [n.id for n in d.onotes]
+                        out = n0.id in got and all(n.docID == d.id for n in d.onotes)
                     elif kind == 'tags':
                         out = sorted(x.id for x in d.tags) == sorted(b for a, b in expect[w] if a == d.id)
                     elif kind == 'docs':
@@ -1013,7 +1065,7 @@ def run_strids(ctx):
                     ctx.oracle_fail(KEY_INST, 'an SQLObject instance with a string id used as a query value (T.q.id == obj, '
                                     'IN(col, [obj])) is not rendered as the literal of its id (fixed in 56fe495): ' + what, desc)
                 else:
-                    ctx.oracle_fail('C02:sqlite:str-id:%s' % kind, what, desc)
+                    ctx.oracle_fail('C02:sqlite:str-id:%s' % kind.replace('-other-side', ''), what, desc)
                 # resynchronise the expectation with the table so that one failure is reported once
                 cur = links()
                 expect[0] = [x for x in cur if str(x[0]).startswith('tw')]
@@ -1299,6 +1351,41 @@ def run_floats(ctx):
             if x.is_finite() and not (back is not None and back == x):
                 ctx.oracle_fail('C02:%s:decimal-literal-is-not-the-value:%s' % (d, s),
                                 'sqlrepr(Decimal(%r), %r) = %r reads as %r' % (s, d, text, back), {'dialect': d, 'decimal': s})
+
+
+
+# ------------------------------------------------------------------ binary-ish values: refused, or a literal of their content
+KEY_MEMORYVIEW = 'C02:memoryview-rendered-as-its-repr-text'
+
+
+def run_binaryish(ctx):
+    """bytes / bytearray / memoryview / array given where a string literal is rendered: sqlrepr must refuse them or render
+    a literal that decodes to their content — never to some other text"""
+    from array import array
+    contents = [b'', b'xy', b"a'b", b'\\', b'\x00\x01', b'%_', bytes(range(32, 127))]
+    for raw_b in contents:
+        for make in (bytes, bytearray, memoryview, lambda b: array('b', [x - 256 if x > 127 else x for x in b]),
+                     lambda b: array('B', list(b))):
+            v = make(raw_b)
+            tname = type(v).__name__ + ('(%s)' % v.typecode if isinstance(v, array) else '')
+            for d in DIALECTS:
+                ctx.case(('bin', tname, raw_b, d), kind='binaryish:' + tname)
+                text = impl_sqlrepr(v, d)
+                if text.startswith('error:'):
+                    continue                  # refused: fine
+                r = ref_lex(d, text)
+                want = (raw_b.decode('latin-1'), raw_b.decode('utf-8', 'replace'))
+                desc = {'dialect': d, 'type': tname, 'content': raw_b.hex(), 'literal': text}
+                if r is None:
+                    if not (b'\x00' in raw_b and d != 'mysql'):
+                        ctx.oracle_fail('C02:%s:binaryish-not-a-literal:%s' % (d, tname), 'sqlrepr(%s, %r) = %r is not one literal' % (tname, d, text), desc)
+                elif r[1] != '' or r[0] not in want:
+                    if isinstance(v, memoryview) and r[0].startswith('<memory at '):
+                        ctx.oracle_fail(KEY_MEMORYVIEW, 'sqlrepr(memoryview(%r), %r) = %r: the text of the object\'s repr() is stored / compared '
+                                        'instead of its content (StringLikeConverter does str(value) on a memoryview)' % (raw_b, d, text), desc)
+                    else:
+                        ctx.oracle_fail('C02:%s:binaryish-altered:%s:%s' % (d, tname, raw_b.hex()),
+                                        'sqlrepr(%s of %r, %r) = %r decodes to %r, not to the content' % (tname, raw_b, d, text, r[0]), desc)
 
 
 def replay(case):
